@@ -50,6 +50,7 @@ def run(P, R, tier):
     common.forward(P, R, 'C13', ['C13.a', 'C13.b'], 'C04.e', 'the boxes the spatial index is built from are the elements\' own extents (sliced arrays included)', floor=10)
     sindex_writers(P, R)
     common.forward(P, R, 'C16', ['C16.c', 'C16.d'], 'C04.e', 'the boxes and the index a selection is queried with are computed from its own rows: derived arrays carry no cached state of their source', floor=5)
+    common.forward(P, R, 'C01', ['C01.l'], 'C04.e', 'without an index cx compares the point coordinates with the slice ends: in double precision, like the boxes of the index', floor=1)
     common.forward(P, R, 'C01', ['C01.c'], 'C04.e', 'cx applies intersects_bounds to the candidates: every element the caller selects gets its own verdict (rows outside `inds` stay False, rows inside are all computed)', floor=3)
     common.forward(P, R, 'C03', ['C03.a', 'C03.b', 'C03.c', 'C03.d', 'C03.e', 'C03.f', 'C03.g', 'C03.h', 'C03.j', 'C03.k'], 'C04.e', 'cx with a spatial index is exact only if the R-tree answers exactly', floor=10)
 
